@@ -247,7 +247,9 @@ def obligations(tier, seed):
             for origin, up in (('sw', True), ('nw', False)):
                 c = dict(rc, grid=gname, seed=seed, origin=origin, use_profiles=up)
                 specs.append(spec(MOD, 'Render', 'render/%s/%s/cfg%d' % (gname, origin, i), cfg=c, cost=3))
-    lim_cfgs = [('utm_ll', 3, (600, 500), 6), ('utm_ul', 2, (700, 300), 4), ('merc_ll', 4, (512, 512), 9), ('frac_ll', 2, (500, 700), 12)]
+    lim_cfgs = [('utm_ll', 3, (600, 500), 6), ('utm_ul', 2, (700, 300), 4), ('merc_ll', 4, (512, 512), 9), ('frac_ll', 2, (500, 700), 12),
+                # served (limit not reached) requests that straddle the border of a north-west-origin grid: out-of-grid slots must be None
+                ('utm_ul', 2, (300, 300), 16), ('frac_ul', 1, (250, 350), 16)]
     if tier == 'thorough':
         lim_cfgs += [('geod_ul', 5, (900, 300), 8), ('sqrt2_ll', 6, (512, 1024), 5), ('multi0_ul', 1, (800, 800), 16)]
     for gname, level, size, limit in lim_cfgs:
